@@ -193,3 +193,65 @@ func verif_C08_transfer_end() {
 		verifAssert(lg.lines == 0, "C08.transfer-nothing-logged")
 	}
 }
+
+// verif_C08_close_overlap: the connection ends on its own (peer gone, QUIT or
+// the error threshold) while Server.Close closes it from another goroutine, and
+// the backend's Logout is slow (a scheduling point before and after its
+// effect). Under every interleaving the scheduler explores, each session is
+// logged out exactly once and nothing happens on it afterwards.
+func verif_C08_close_overlap() {
+	verifPreemptBound(verifBound(2, 3))
+	verifSchedForkBound(verifBound(4, 6))
+	be := &vbackend{logoutYield: true}
+	s, _ := verifServer(be)
+	ending := verifChoice(3)
+	in := "EHLO c\r\nMAIL FROM:<a@v>\r\n"
+	switch ending {
+	case 1:
+		in += "QUIT\r\n"
+	case 2:
+		in += "FROB\r\nFROB\r\nFROB\r\nFROB\r\n"
+	}
+	vc := &vconn{in: []byte(in), final: io.EOF}
+	c := newConn(vc, s)
+	done := make(chan struct{})
+	go func() {
+		s.handleConn(c)
+		close(done)
+	}()
+	go func() {
+		s.Close()
+	}()
+	<-done
+	verifSettle()
+	verifObserve("c08ov", ending) // (only schedule-independent values)
+	// exactly one Logout per session
+	live := map[int]bool{}
+	done1 := map[int]int{}
+	late := false
+	for _, e := range be.trace {
+		switch e.kind {
+		case "NewSession":
+			live[e.sess] = true
+		case "Logout":
+			done1[e.sess]++
+			verifAssert(live[e.sess], "C08.overlap-logout-only-for-live-session")
+			live[e.sess] = false
+		default:
+			if !live[e.sess] {
+				late = true
+			}
+		}
+	}
+	for id := 1; id <= be.sessions; id++ {
+		verifAssert(done1[id] == 1, "C08.overlap-exactly-one-logout-per-session")
+	}
+	verifAssert(verifGoroutinesAlive() == 0, "C08.overlap-no-goroutine-left")
+	verifReach("C08.overlap-end")
+	// Listed known finding (see known_findings.json): Server.Close logs the
+	// session out under Conn.locker while the command loop, which fetched the
+	// session just before, goes on to call it. Kept as the LAST assertion of
+	// the harness so that the tag covers nothing else.
+	verifKnown("KF-C08-callback-after-concurrent-close", true)
+	verifAssert(!late, "C08.overlap-no-callback-after-logout")
+}
